@@ -121,6 +121,11 @@ CHECKS = {
           "5-30 requests per case against searchlite-http on a fresh index: /add (NDJSON) and /bulk with 1-4 documents that are valid, not JSON, not an object, or violate the schema at a generated position, /delete with valid or invalid id lists, /commit, /refresh, /compact, /search. A 2xx write appends its operations to the model queue (and must report queued == number of items), a rejected write appends nothing, /commit applies the queue in order; after every successful /commit and at the end /search(match_all) must equal the model (ids and stored fields); valid writes and commits must never be rejected.",
           "Trusted: harness/src/httpc.rs (server bootstrap, HTTP client), the queue model. Requests are sequential. Supervised child process.",
           "DESIGN.md §5 C23"),
+  "C24": ("exploration",
+          "property-based testing / protocol fuzzing of the real HTTP service (in-process server, raw HTTP/1.1 client) against the documented status and body contract",
+          "2-10 requests before /init and 4-25 after it per case (--max-body-bytes 16384): each of the 11 routes with a documented-valid body, a body it must reject (bad JSON, wrong types, schema violations, invalid search requests), a valid body with byte damage, an oversized body (Content-Length or chunked), a wrong content type, no body; /search with hostile mutated requests (C16's mutator); wrong methods, unknown paths, bytes that are not HTTP. Every request must get a syntactically valid HTTP response; on documented routes 2xx bodies carry the documented members and non-2xx bodies are {error:{type,reason}}; 404 before /init, 409 for a second /init, 413 for oversized bodies, 4xx (never 5xx) for invalid input, 2xx for valid input; undefined methods/paths and non-HTTP bytes get a well-formed non-2xx answer; /healthz answers after every request; an abort of the process is caught by the supervisor.",
+          "Trusted: harness/src/httpc.rs. For undefined methods/paths only a well-formed refusal is required. Once a damaged-but-accepted schema created the index, validity of documents is no longer assumed.",
+          "DESIGN.md §5 C24"),
   "C26": ("exploration",
           "property-based testing of the C ABI with guarded buffers (canary regions, every capacity in the thorough tier) in a supervised child process",
           "Indexes driven only through the C API (searchlite_index_open / add_json / commit / search): queries as plain text, JSON nodes and raw bytes incl. invalid UTF-8, limits 0..6, garbage and real cursors, valid/invalid aggregation JSON. The output buffer sits between two 64-byte canaries in an allocation pre-filled with 0xAA; for 40 sampled capacities plus the boundary ones (quick) or every capacity from 0 to full length + 16 (half of the thorough cases) the call must leave canaries and every byte at index >= buf_cap untouched, return ret <= buf_cap-1 with a NUL at ret and none before, write a prefix of the full response, leave a zero-capacity buffer alone; null handle/query/buffer return 0 and write nothing; failing searches return 0 and write nothing; null arguments to add/commit return negative status. A crash of the process (null dereference, abort) is caught by the supervisor and traced to the call in flight.",
